@@ -427,6 +427,12 @@ class Rec:
     def __repr__(self): return 'Rec%r' % (self.f,)
 
 
+class Inp:
+    """a second input over a suffix of the modelled window; its cursor is kept in the path state under ('pos', key)"""
+    def __init__(self, key): self.key = key
+    def __repr__(self): return 'Inp(%s)' % self.key
+
+
 class Opaque:
     def __init__(self, tag): self.tag = tag
     def __repr__(self): return 'Opaque(%s)' % self.tag
@@ -444,13 +450,16 @@ CAP = 9    # availability values 0..CAP-1 are exact, CAP means "CAP or more" (it
 MANY = 10 ** 9
 
 
+INPUT_OPS = ('empty', 'size', 'peek_uint8', 'peek_char', 'peek_byte', 'current', 'begin', 'end', 'bump', 'bump_in_this_line', 'bump_to_next_line')
+
+
 class Interp:
     """evaluates one function over the tuple space; outcomes: list of (kind, value, state), kind in return/terminate/throw"""
 
     def __init__(self, db, space, nbytes=8, signed_char_reads=True):
         self.db = db; self.sp = space; self.findings = []; self.steps = 0
         self.avail = space.byname.get('avail')
-        self.reads = collections.Counter(); self.intercept = {}; self.ptr_compare = None; self.callsite = None
+        self.reads = collections.Counter(); self.intercept = {}; self.ptr_compare = None; self.callsite = None; self.construct_hook = None
 
     # ---- helpers
     def byte(self, k, t='unsigned char'):
@@ -485,6 +494,8 @@ class Interp:
 
     def compare(self, op, a, b, st):
         if isinstance(a, Ptr) and isinstance(b, Ptr):
+            if a.base != b.base and 'null' in (a.base, b.base) and op in ('==', '!='):
+                yield (op == '!='), st; return
             if a.base != b.base:
                 if self.ptr_compare is not None:
                     yield from self.ptr_compare(self, op, a, b, st); return
@@ -492,15 +503,18 @@ class Interp:
             yield {'<': a.off < b.off, '>': a.off > b.off, '<=': a.off <= b.off, '>=': a.off >= b.off, '==': a.off == b.off, '!=': a.off != b.off}[op], st; return
         if not isinstance(a, Val) or not isinstance(b, Val): raise Unmodelled('comparison of %r and %r' % (a, b))
         if self.avail is not None:
-            for x, y in ((a, b), (b, a)):
-                if self.avail.level in x.tabs and y.is_const() and CAP <= y.off < MANY:
-                    # sizes of CAP and more are one abstract value: a comparison with a constant that large is undecided there.
-                    # That part of the path leaves the modelled window; the exact sizes go on.
-                    many = self.sp.AND(st.cond, self.sp.restrict(self.avail.level, ((CAP, CAP),)))
-                    rest = self.sp.DIFF(st.cond, many)
-                    if many is not None: yield Abort('window'), st.fork(many)
-                    if rest is None: return
-                    st = st.fork(rest) if many is not None else st
+            for x, y, o in ((a, b, op), (b, a, {'<': '>', '>': '<', '<=': '>=', '>=': '<=', '==': '==', '!=': '!='}[op])):
+                t = x.tabs.get(self.avail.level)
+                if t is not None and len(x.tabs) == 1 and y.is_const() and t[CAP] + x.off >= MANY:
+                    # sizes of CAP and more are one abstract value "at least lb": x o y is decided there only when every such size agrees
+                    lb = t[CAP] + x.off - MANY; c = y.off
+                    decided = (c <= lb) if o in ('>=', '<') else (c < lb)
+                    if not decided:
+                        many = self.sp.AND(st.cond, self.sp.restrict(self.avail.level, ((CAP, CAP),)))
+                        rest = self.sp.DIFF(st.cond, many)
+                        if many is not None: yield Abort('window'), st.fork(many)
+                        if rest is None: return
+                        st = st.fork(rest) if many is not None else st
         d = binop('-', a, b)
         S = {'<': ((-INF, -1),), '<=': ((-INF, 0),), '>': ((1, INF),), '>=': ((0, INF),), '==': ((0, 0),), '!=': ((-INF, -1), (1, INF))}[op]
         if d.is_const():
@@ -640,9 +654,14 @@ class Interp:
                     yield self.arith(op, l, r, e.get('t')), s2
 
     def arith(self, op, a, b, t):
-        if isinstance(a, Ptr) and isinstance(b, Val) and b.is_const() and op in ('+', '-'):
-            return Ptr(a.base, a.off + (b.off if op == '+' else -b.off))
-        if isinstance(a, Ptr) and isinstance(b, Ptr) and op == '-' and a.base == b.base: return Val.const(a.off - b.off)
+        if isinstance(a, Ptr) and isinstance(b, Val) and op in ('+', '-'):
+            o = binop(op, a.off if isinstance(a.off, Val) else Val.const(a.off), b)
+            return Ptr(a.base, o.off if o.is_const() else o)
+        if isinstance(a, Ptr) and isinstance(b, Ptr) and op == '-' and a.base == b.base:
+            d = binop('-', a.off if isinstance(a.off, Val) else Val.const(a.off), b.off if isinstance(b.off, Val) else Val.const(b.off))
+            return d
+        if isinstance(a, Ptr) and isinstance(b, Ptr) and op == '-' and a.base == 'end' and b.base == 'cur' and self.avail is not None and not isinstance(b.off, Val) and a.off == 0:
+            return Val({self.avail.level: [(max(x - b.off, 0) if x < CAP else MANY + max(CAP - b.off, 0)) for x in range(self.avail.size)]})
         if not isinstance(a, Val) or not isinstance(b, Val): raise Unmodelled('%s on %r and %r' % (op, a, b))
         return fit(binop(op, a, b), t)
 
@@ -665,6 +684,16 @@ class Interp:
 
     def e_construct(self, e, st):
         args = e.get('args', [])
+        if self.construct_hook is not None and self.construct_hook(e):
+            def rec(i, acc, s):
+                if i == len(args): yield acc, s; return
+                for v, s2 in self.ev(args[i], s):
+                    if isinstance(v, Abort): yield v, s2; continue
+                    yield from rec(i + 1, acc + [v], s2)
+            for av, s in rec(0, [], st):
+                if isinstance(av, Abort): yield av, s; continue
+                yield from self.construct_hook(e, av, s)
+            return
         if len(args) == 1 and (e.get('copy') or e.get('elidable')):
             yield from self.ev(args[0], st); return
         yield from self.e_initlist(e, st)
@@ -717,7 +746,14 @@ class Interp:
                 yield from r; return
         if isinstance(ov, Agg) and cn in ('size', 'begin', 'end'):
             yield (Val.const(len(ov.items)) if cn == 'size' else Ptr(('agg', ov), 0 if cn == 'begin' else len(ov.items))), st; return
-        if isinstance(ov, Opaque) and ov.tag == 'input':
+        if ((isinstance(ov, Opaque) and ov.tag == 'input') or isinstance(ov, Inp)) and cn in INPUT_OPS:
+            if isinstance(ov, Inp):
+                # run the operation with the cursor of that input
+                save = st.pos; st.pos = st.env[('pos', ov.key)]
+                for v, s2 in self.input_call(e, cn, av, st):
+                    s2.env[('pos', ov.key)] = s2.pos; s2.pos = save
+                    yield v, s2
+                return
             yield from self.input_call(e, cn, av, st); return
         if isinstance(ov, Opaque) and ov.tag == 'string':
             if e.get('opc') == '+=' or cn == 'push_back':
@@ -767,8 +803,7 @@ class Interp:
         if cn == 'empty':
             yield Val({self.avail.level: [1 if a <= st.pos else 0 for a in range(self.avail.size)]}), st
         elif cn == 'size':
-            if av and av[0].is_const() and av[0].off + st.pos >= CAP: raise Unmodelled('size( %d ) at offset %d is beyond the modelled window' % (av[0].off, st.pos))
-            yield Val({self.avail.level: [(max(a - st.pos, 0) if a < CAP else MANY) for a in range(self.avail.size)]}), st
+            yield Val({self.avail.level: [(max(a - st.pos, 0) if a < CAP else MANY + max(CAP - st.pos, 0)) for a in range(self.avail.size)]}), st
         elif cn in ('peek_uint8', 'peek_char', 'peek_byte'):
             if av and not av[0].is_const(): raise Unmodelled('peek at a symbolic offset')
             k = (av[0].off if av else 0) + st.pos
@@ -776,7 +811,8 @@ class Interp:
                 yield Abort('window'), st; return
             self.need(st, k, e.get('loc'))
             yield self.byte(k, e.get('t')), st
-        elif cn == 'current': yield Ptr('cur', st.pos), st
+        elif cn in ('current', 'begin') and (cn == 'current' or st.pos == 0): yield Ptr('cur', st.pos), st
+        elif cn == 'end': yield Ptr('end', 0), st
         elif cn in ('bump', 'bump_in_this_line', 'bump_to_next_line'):
             n = av[0] if av else Val.const(1)
             if not n.is_const(): raise Unmodelled('%s by a symbolic count' % cn)
@@ -801,7 +837,7 @@ class Interp:
             s.env['this'] = prev
             if kind == 'return': yield val, s
             elif kind == 'fall': yield Opaque('void'), s
-            elif kind in ('terminate', 'throw'): yield Abort(kind, val), s
+            elif kind in ('terminate', 'throw', 'window'): yield Abort(kind, val), s
             else: raise Unmodelled('%s leaves the inlined function %s' % (kind, fn['q']))
 
     def merge(self, outs, st0):
